@@ -140,7 +140,58 @@ site_table!(0, 1, 2, 3, 4, 5, 6, 7, 8, 9, 10, 11, 12, 13, 14, 15, 16, 17, 18, 19
 
 pub struct RustPool;
 
+/// pool "rustpg": the same signatures, fakes and sites, but every target is a machine-code stub on a page of
+/// its own (`LAST = 100 + f; return false`), so that one target's page can refuse to become writable
+pub static PAGED: [std::sync::atomic::AtomicU64; 5] = [const { std::sync::atomic::AtomicU64::new(0) }; 5];
+fn paged_code(f: usize, version: usize) -> Vec<u8> {
+    // three encodings of the same function (scratch register rax / rcx / rdx, the last one after a nop)
+    let (pre, movabs, store): (&[u8], u8, u8) = match version % 3 {
+        0 => (&[], 0xB8, 0x00),
+        1 => (&[], 0xB9, 0x01),
+        _ => (&[0x90], 0xBA, 0x02),
+    };
+    let mut code = pre.to_vec();
+    code.extend_from_slice(&[0x48, movabs]);
+    code.extend_from_slice(&(&LAST as *const AtomicU32 as u64).to_le_bytes());
+    code.extend_from_slice(&[0xC7, store]);
+    code.extend_from_slice(&(100 + f as u32).to_le_bytes());
+    code.extend_from_slice(&[0x31, 0xC0, 0xC3]);
+    code
+}
+pub static PAGED_VERSION: [AtomicUsize; 5] = [const { AtomicUsize::new(0) }; 5];
+pub fn make_paged() {
+    if PAGED[1].load(SeqCst) != 0 {
+        return;
+    }
+    let a = crate::arena::Arena::map_anywhere(10);
+    for f in 1..=4usize {
+        let addr = a.put_bytes((2 * f - 1) * 4096 + 0x40 * f, &paged_code(f, 0));
+        PAGED[f].store(addr, SeqCst);
+    }
+    a.seal();
+    std::mem::forget(a);
+}
+/// the environment replaces the code of target f (same address, same meaning, different bytes) -- JIT output
+/// regenerated, a plugin loaded again.  Only while no injector exists.
+pub fn regen_paged(f: usize) {
+    let addr = PAGED[f].load(SeqCst);
+    assert!(addr != 0, "harness: regen needs pool rustpg");
+    let v = PAGED_VERSION[f].fetch_add(1, SeqCst) + 1;
+    let code = paged_code(f, v);
+    unsafe {
+        assert_eq!(crate::interpose::raw_mprotect(addr & !0xfff, 4096, libc::PROT_READ | libc::PROT_WRITE), 0);
+        std::ptr::write_bytes(addr as *mut u8, 0xCC, 32);
+        std::ptr::copy_nonoverlapping(code.as_ptr(), addr as *mut u8, code.len());
+        assert_eq!(crate::interpose::raw_mprotect(addr & !0xfff, 4096, libc::PROT_READ | libc::PROT_EXEC), 0);
+    }
+}
+
 fn rust_target(f: usize) -> fn(u32) -> bool {
+    let f = f.clamp(1, 4);
+    let p = PAGED[f].load(SeqCst);
+    if p != 0 {
+        return unsafe { std::mem::transmute::<usize, fn(u32) -> bool>(p as usize) };
+    }
     match f {
         1 => tb1,
         2 => tb2,
@@ -158,7 +209,7 @@ fn rust_fake(k: usize) -> fn(u32) -> bool {
 
 impl Pool for RustPool {
     fn name(&self) -> &'static str {
-        "rust"
+        if PAGED[1].load(SeqCst) != 0 { "rustpg" } else { "rust" }
     }
     fn nfuncs(&self) -> usize {
         4
@@ -568,6 +619,10 @@ impl Pool for AsyncPool {
 pub fn make(name: &str) -> Box<dyn Pool> {
     match name {
         "rust" => Box::new(RustPool),
+        "rustpg" => {
+            make_paged();
+            Box::new(RustPool)
+        }
         "libc" => Box::new(LibcPool),
         "generic" => Box::new(GenericPool),
         "async" => Box::new(AsyncPool),
